@@ -3,6 +3,7 @@ package rules
 import (
 	"fmt"
 	"go/token"
+	"sort"
 	"strings"
 	"time"
 
@@ -72,4 +73,61 @@ func uniq(ss []string) (out []string) {
 		}
 	}
 	return out
+}
+
+// checkFieldMap checks that fn stores into each listed field of targetType a
+// value whose access path ends with the given suffix (writer/reader agreement
+// of conversions).
+func checkFieldMap(c *an.Ctx, rule, fnKey, targetType string, want map[string]string) {
+	fn := c.Fn(fnKey)
+	if fn == nil {
+		c.Und(rule, fnKey+" field map", token.NoPos, "anchor not found")
+		return
+	}
+	c.Analysed(fnKey)
+	got := map[string]string{}
+	an.Instrs(fn, func(in ssa.Instruction) {
+		st, ok := in.(*ssa.Store)
+		if !ok {
+			return
+		}
+		typ, field, _, ok := an.FieldOf(st.Addr)
+		if !ok || typ != targetType {
+			return
+		}
+		v := st.Val
+		for {
+			if cv, ok := v.(*ssa.Convert); ok {
+				v = cv.X
+				continue
+			}
+			if ct, ok := v.(*ssa.ChangeType); ok {
+				v = ct.X
+				continue
+			}
+			break
+		}
+		if ap, ok := an.AccessPath(v); ok {
+			got[field] = ap
+		} else {
+			got[field] = "?" + v.Name()
+		}
+	})
+	var names []string
+	for f := range want {
+		names = append(names, f)
+	}
+	sort.Strings(names)
+	for _, f := range names {
+		key := fmt.Sprintf("%s %s.%s", fnKey, targetType, f)
+		g, ok := got[f]
+		switch {
+		case !ok:
+			c.Bad(rule, key, fn.Pos(), "the conversion never sets this field")
+		case !strings.HasSuffix(g, want[f]):
+			c.Bad(rule, key, fn.Pos(), "the field is set from %s instead of …%s: a setting of another kind or address family takes effect here", g, want[f])
+		default:
+			c.Ok(rule, key, fn.Pos(), "set from %s", g)
+		}
+	}
 }
